@@ -37,6 +37,14 @@ pub struct Job {
     /// public entry point) instead of build_runtime + BytecodeModule::from_runtime...
     #[serde(default)]
     pub public_api: bool,
+    /// order in which this child processes the cases of the batch (indices into `cases`);
+    /// empty = as listed. Results are returned in the order of `cases`.
+    #[serde(default)]
+    pub order: Vec<usize>,
+    /// run every case on a thread of its own (fresh thread-locals) instead of all cases one
+    /// after the other on one thread
+    #[serde(default)]
+    pub separate_threads: bool,
 }
 
 /// One repetition (compile + run) of one case in one process.
@@ -504,17 +512,58 @@ pub fn main(args: &[String]) -> i32 {
             keep.push(v);
         }
     }
-    let worker = std::thread::Builder::new().stack_size(64 << 20).spawn(move || {
-        let mut out = Vec::new();
-        for case in &job.cases {
-            out.push(run_case(case, job.full, job.pause_ms, job.public_api));
+    let n = job.cases.len();
+    let mut order: Vec<usize> = job.order.iter().copied().filter(|i| *i < n).collect();
+    for i in 0..n {
+        if !order.contains(&i) {
+            order.push(i);
         }
-        out
-    });
-    let results = match worker.map(|h| h.join()) {
-        Ok(Ok(r)) => r,
-        _ => {
-            eprintln!("c05-worker: worker thread failed");
+    }
+    let job = std::sync::Arc::new(job);
+    let mut results: Vec<Option<CaseResult>> = (0..n).map(|_| None).collect();
+    if job.separate_threads {
+        // one fresh thread per case, one after the other
+        for (pos, idx) in order.iter().copied().enumerate() {
+            let j = job.clone();
+            let h = std::thread::Builder::new().stack_size(64 << 20).spawn(move || {
+                run_case(&j.cases[idx], j.full, if pos == 0 { j.pause_ms } else { 0 }, j.public_api)
+            });
+            match h.map(|h| h.join()) {
+                Ok(Ok(r)) => results[idx] = Some(r),
+                _ => {
+                    eprintln!("c05-worker: case thread failed");
+                    return 3;
+                }
+            }
+        }
+    } else {
+        // the whole batch on ONE thread in this child's order: whatever a compilation or a
+        // run leaves behind in the thread / the process is there for the next project
+        let j = job.clone();
+        let ord = order.clone();
+        let h = std::thread::Builder::new().stack_size(64 << 20).spawn(move || {
+            let mut out = Vec::new();
+            for (pos, idx) in ord.iter().copied().enumerate() {
+                out.push((idx, run_case(&j.cases[idx], j.full, if pos == 0 { j.pause_ms } else { 0 }, j.public_api)));
+            }
+            out
+        });
+        match h.map(|h| h.join()) {
+            Ok(Ok(list)) => {
+                for (idx, r) in list {
+                    results[idx] = Some(r);
+                }
+            }
+            _ => {
+                eprintln!("c05-worker: worker thread failed");
+                return 3;
+            }
+        }
+    }
+    let results: Vec<CaseResult> = match results.into_iter().collect::<Option<Vec<_>>>() {
+        Some(r) => r,
+        None => {
+            eprintln!("c05-worker: missing result");
             return 3;
         }
     };
